@@ -368,7 +368,9 @@ pub fn run_c02r(ctx: &mut Ctx, from: u64, to: u64) {
             chars[0] = '\u{feff}';
             ctx.count("texts_starting_with_u_feff", 1);
         }
-        let dist: [u32; 3] = *rng.pick(&[[10, 10, 2], [10, 10, 10], [10, 10, 30], [20, 1, 3], [6, 1, 6], [1, 10, 5]]);
+        // (the last two: hardly any word boundary, i.e. segments with hundreds of unknown boundaries)
+        let dist: [u32; 3] = *rng.pick(&[[10, 10, 2], [10, 10, 10], [10, 10, 30], [20, 1, 3], [6, 1, 6], [1, 10, 5], [1, 0, 30], [10, 0, 10]]);
+        ctx.flag("sentences_with_128_or_more_unknown_boundaries_in_one_segment", dist[1] == 0 && n > 300);
         let labels: Vec<u8> = (0..n - 1).map(|_| rng.weighted(&dist) as u8).collect();
         let with_tags = rng.chance(1, 2);
         let tags = (0..n)
